@@ -133,6 +133,31 @@ Proof.
   rewrite E9. destruct (modv p (h (T 8)) (h (U g))) as [|c r] eqn:Em.
   - change (pexec pskip h2 (U g)) with (h2 (U g)). exact Eg.
   - rewrite !pexec_bind. rewrite IH. f_equal.
-    + prun. rewrite Pos.eqb_refl. cbv iota. prun. cbn [Pos.eqb]. rewrite ?Eg. reflexivity.
-    + prun. rewrite Pos.eqb_refl. cbv iota. rewrite E9. reflexivity.
+    all: prun; rewrite ?Pos.eqb_refl; cbv iota; prun; cbn [Pos.eqb]; rewrite ?Eg, ?E9; reflexivity.
+Qed.
+
+Definition Poly_gcd_alias_free : Prop :=
+  forall p (h : pstore) (g a b : positive),
+    pexec (P_gcd p (U g) (U a) (U b)) h (U g) = gcd_val p (h (U a)) (h (U b)).
+
+Lemma poly_gcd_alias_free : Poly_gcd_alias_free.
+Proof.
+  intros p h g a b. unfold P_gcd, gcd_val.
+  rewrite !pexec_bind. change (fst (pload (U a) h)) with (h (U a)). change (snd (pload (U a) h)) with h.
+  change (fst (pload (U b) h)) with (h (U b)). change (snd (pload (U b) h)) with h. cbv zeta.
+  set (dx := length (strip0 p (h (U a)))). set (dy := length (strip0 p (h (U b)))).
+  destruct ((dx =? 0)%nat || (dy =? 1)%nat); [split_locs; psolve|].
+  destruct ((dy =? 0)%nat || (dx =? 1)%nat); [split_locs; psolve|].
+  rewrite !pexec_bind.
+  match goal with |- context [gcd_loop p ?n (U g) ?hh] => set (h1 := hh); set (h3 := snd (gcd_loop p n (U g) h1)) end.
+  assert (E3 : h3 (U g) = gcdv p (S (dx + dy)) (h1 (T 8)) (h1 (U g))) by apply gcd_loop_value.
+  change (fst (pload (U g) h3)) with (h3 (U g)). change (snd (pload (U g) h3)) with h3.
+  assert (E1 : h1 (T 8) = (if (dy <=? dx)%nat then strip0 p (h (U a)) else strip0 p (h (U b))) /\
+               h1 (U g) = (if (dy <=? dx)%nat then strip0 p (h (U b)) else strip0 p (h (U a)))).
+  { unfold h1. destruct (dy <=? dx)%nat; split; split_locs; psolve. }
+  destruct E1 as [E8 Eg]. rewrite E3, E8, Eg.
+  destruct (dy <=? dx)%nat;
+    match goal with |- context [(length ?x <=? 1)%nat] => destruct (length x <=? 1)%nat end;
+    try (prun; rewrite ?Pos.eqb_refl; reflexivity);
+    try (change (pexec pskip h3 (U g)) with (h3 (U g)); rewrite E3, E8, Eg; reflexivity).
 Qed.
